@@ -91,7 +91,8 @@ def check(ctx):
             ctx.cov["scenarios_replayed"] += len(scns)
             for k, v in info.get("arm_hits", {}).items():
                 arms[k] = arms.get(k, 0) + v
-    if not all(arms.get(k) for k in ("win", "loss", "break_even", "balance", "generate_event", "keyed_by_name")):
+    # (runs cut short by a violation exercise fewer arms: vacuity is only judged on a clean run)
+    if not ctx.violations and not all(arms.get(k) for k in ("win", "loss", "break_even", "balance", "generate_event", "keyed_by_name")):
         raise vlib.ToolError("vacuous run: a kind of event was never replayed: %s" % arms)
     return ctx.finish(extra={"arm_hits": arms, "violations_by_signature_and_mode": counts})
 
